@@ -3,7 +3,7 @@
    watchdog and the signals thread (_signals_thread / _handle_sigint / _handle_sigtstp /
    _cancel_pending_threads) with both mutexes; a signal may arrive (ESigArrive) before any step.
    Every statement is for every configuration and every admitted event sequence. *)
-From PV Require Import Dsh.Sys Dsh.SysFacts Dsh.SysSig.
+From PV Require Import Dsh.Sys Dsh.SysFacts Dsh.SysSig Dsh.SysLive.
 Local Open Scope Z_scope.
 
 (* which interrupts abort: in batch mode every ^C; otherwise only a ^C within INTR_TIME seconds of
@@ -59,6 +59,16 @@ Theorem C20_canceled_never_started : forall (c : cfg) s es s' i w, run c s es = 
   pc w = PNone -> ts w = TCanceled -> exists w', nth_error (ws s') i = Some w' /\ pc w' = PNone.
 Proof. exact canceled_never_started. Qed.
 Print Assumptions C20_canceled_never_started.
+
+(* an interrupt arriving at any moment never deadlocks pdsh: in every reachable state that has not
+   exited - whatever the signals thread is in the middle of, whichever mutex it holds - some thread
+   can take a step other than a clock tick, a spurious wake-up or a signal arriving; the only
+   exception is a state in which pdsh waits for a host hanging inside connect() or the read loop
+   with no signal pending, which is C07's business (bounded by the time-outs) *)
+Theorem C20_no_deadlock : forall (c : cfg), 1 <= f c -> forall t0 es s, run c (init c t0) es = Some s -> exited s = None ->
+  can_move c s \/ hung_worker c s.
+Proof. exact no_deadlock. Qed.
+Print Assumptions C20_no_deadlock.
 
 (* a host cancelled while connecting is still covered by the connect timeout (the defect repaired
    in dsh.c: the watchdog used to skip cancelled slots): C07_deadline includes cancelled workers *)
